@@ -134,7 +134,7 @@ func judgeParse(c *Ctx, module, prop string, devs []string, cases []*parseCase, 
 		return nil, nil, 0, 0, err
 	}
 	nsh := 8
-	if len(events) < 800 {
+	if len(events) < 800 || forceSingleShard {
 		nsh = 1
 	}
 	per := (len(events) + nsh - 1) / nsh
